@@ -696,32 +696,50 @@ impl<'a, S: Source + 'a> Constructed<'a, S> {
                     }
                 }
                 let old_limit = self.source.limit_further(Some(len));
-                let res = {
+                let mode = self.mode;
+                let res = (|| {
                     let mut content = if constructed {
                         // Definite length constructed values are not allowed
                         // in CER.
-                        if self.mode == Mode::Cer {
+                        if mode == Mode::Cer {
                             return Err(self.source.content_err(
                                 "definite length constructed in CER mode"
                             ))
                         }
                         Content::Constructed(
                             Constructed::new(
-                                self.source, State::Definite, self.mode
+                                self.source, State::Definite, mode
                             )
                         )
                     }
                     else {
                         Content::Primitive(
-                            Primitive::new(self.source, self.mode)
+                            Primitive::new(self.source, mode)
                         )
                     };
                     let res = op(tag, &mut content)?;
                     content.exhausted()?;
-                    res
-                };
-                self.source.set_limit(old_limit.map(|x| x - len));
-                Ok(Some(res))
+                    Ok(res)
+                })();
+                match res {
+                    Ok(res) => {
+                        self.source.set_limit(old_limit.map(|x| x - len));
+                        Ok(Some(res))
+                    }
+                    Err(err) => {
+                        // Keep the limit in step with the position if the
+                        // value failed: what is left of the enclosing
+                        // value is what is left of this value plus
+                        // whatever follows it. Otherwise a caller that
+                        // carries on after the error would find the
+                        // enclosing value cut down to this value.
+                        let rest = self.source.limit().unwrap_or(0);
+                        self.source.set_limit(
+                            old_limit.map(|x| x - len + rest)
+                        );
+                        Err(err)
+                    }
+                }
             }
             Length::Indefinite => {
                 if !constructed || self.mode == Mode::Der {
